@@ -312,6 +312,8 @@ Error BaseAssembler::embed_label(const Label& label, size_t data_size) {
 
     Fixup* fixup = _code->new_fixup(le, _section->section_id(), offset(), 0, of);
     if (ASMJIT_UNLIKELY(!fixup)) {
+      // Nothing was emitted - the already registered relocation entry must not relocate anything.
+      re->_reloc_type = RelocType::kNone;
       return report_error(make_error(Error::kOutOfMemory));
     }
 
@@ -371,15 +373,16 @@ Error BaseAssembler::embed_label_delta(const Label& label, const Label& base, si
     writer.emit_value_le(delta, data_size);
   }
   else {
+    // Allocate the expression first - a relocation entry must not be registered before everything it needs exists.
+    Expression* exp = _code->_arena.new_oneshot<Expression>();
+    if (ASMJIT_UNLIKELY(!exp)) {
+      return report_error(make_error(Error::kOutOfMemory));
+    }
+
     RelocEntry* re;
     Error err = _code->new_reloc_entry(Out(re), RelocType::kExpression);
     if (ASMJIT_UNLIKELY(err != Error::kOk)) {
       return report_error(err);
-    }
-
-    Expression* exp = _code->_arena.new_oneshot<Expression>();
-    if (ASMJIT_UNLIKELY(!exp)) {
-      return report_error(make_error(Error::kOutOfMemory));
     }
 
     exp->reset();
